@@ -9,10 +9,19 @@ use std::fmt::Debug;
 use std::fmt::Display;
 
 use anyhow::Result;
+use regex::Regex;
 use serde::Serialize;
 use serde::ser::SerializeMap;
 
 use crate::escaping::Escaper;
+
+lazy_static! {
+    /// Matches text that ends in what would be parsed as expectation modifier
+    static ref ENDS_LIKE_MODIFIER: Regex = Regex::new(
+        r"\s\((?:(?:equal|eq|no-eol|escaped|esc|glob|gl|regex|re)[*+?]?|[*+?])\)$"
+    )
+    .expect("modifier regex must compile");
+}
 
 /// Rule implements the line-level comparisons of [`crate::expectation::Expectation`]s
 pub trait Rule: RuleClone + Debug + Send {
@@ -44,6 +53,10 @@ pub trait Rule: RuleClone + Debug + Send {
         if kind == "equal" {
             if escaper.has_unprintable(&expression) {
                 format!("{rendered} (escaped{quantifier})")
+            } else if ENDS_LIKE_MODIFIER.is_match(&rendered) {
+                // text that ends in something like ` (glob)` must be marked
+                // explicitly, or it would be read back with that modifier
+                format!("{rendered} (equal{quantifier})")
             } else {
                 format!("{rendered}{equal_quantifier}")
             }
